@@ -336,14 +336,16 @@ func ruleByteAtGuards(c *Ctx, r *Report, prefix string) {
 			continue
 		}
 		okLo, okHi := false, false
-		for _, g := range guardsOf(fn) {
+		c.curRoot = fn
+		c.bindParam = nil
+		for _, g := range guardsOfX(fn, true) { // the range test may sit in a boolean helper (inDict(dist))
 			if g.call != nil {
 				continue
 			}
 			x, y, op := g.x, g.y, g.op
 			isDist := func(v ssa.Value) bool { return stripConv(v) == fn.Params[1] }
 			isLen := func(v ssa.Value) bool {
-				call, ok := v.(*ssa.Call)
+				call, ok := stripConvNoLook(v).(*ssa.Call)
 				return ok && call.Call.StaticCallee() == lf
 			}
 			if isDist(y) {
